@@ -207,13 +207,24 @@ namespace occa {
   //   headers       : Array
   //   include_paths : Array
 
+  hash_t kernelPropsHash(const occa::json &props,
+                         const strVector &names) {
+    // Hash the values together with their names: hashing each value on its
+    // own and combining the hashes gives the same result when values move
+    // from one property to another, and nothing at all when two properties
+    // hold equal values
+    occa::json namedProps(json::object_);
+    for (const std::string &name : names) {
+      const occa::json value = props[name];
+      if (value.isInitialized()) {
+        namedProps.set(name, value);
+      }
+    }
+    return occa::hash(namedProps);
+  }
+
   hash_t kernelHeaderHash(const occa::json &props) {
-    return (
-      occa::hash(props["defines"])
-      ^ props["functions"]
-      ^ props["includes"]
-      ^ props["headers"]
-    );
+    return kernelPropsHash(props, {"defines", "functions", "includes", "headers"});
   }
 
   std::string assembleKernelHeader(const occa::json &props) {
